@@ -128,7 +128,7 @@ class BasePath(safe_str.safe_string):
                           self.destdir, directory=True)
 
     def append(self, path):
-        drive, path, isdir = self.__normalize(path, expand_user=True)
+        drive, path, isdir = self.__normalize(path)
         if not posixpath.isabs(path):
             path, _ = self.__join(self.suffix, path or '.')
         return type(self)(drive + path, self.root, self.destdir, isdir)
